@@ -76,8 +76,13 @@ func harnessC09NoteStep(kind int, nUsers int) {
 	if att0b {
 		fx.attach(s0b, fx.uids[0], false)
 	}
+	chan1 := false
 	if att1 {
-		fx.attach(s1, fx.uids[1], false)
+		if kind == verifKindChn && nUsers < 3 {
+			// with two users the second one may be attached as a channel reader
+			chan1 = verifNondetBool("chan1")
+		}
+		fx.attach(s1, fx.uids[1], chan1)
 	}
 	chan2 := false
 	if att2 {
@@ -171,7 +176,7 @@ func harnessC09NoteStep(kind int, nUsers int) {
 		}
 	}
 	checkRelay(rel0b, fx.uids[0], att0b, false)
-	checkRelay(rel1, fx.uids[1], att1, false)
+	checkRelay(rel1, fx.uids[1], att1, chan1)
 	checkRelay(rel2, u2, att2, chan2)
 	verifReach("end")
 }
